@@ -81,6 +81,9 @@ class Program:
                 continue
             isf = f.f.get("impl_self") or {}
             if f.f.get("impl_trait") and isf.get("adt") in (RC, WEAK):
+                # impls of a private trait of this crate are helpers, not API: nothing outside the crate can name them
+                if f.f["impl_trait"].startswith(self.facts.crate + "::") and f.f.get("vis") != "Public":
+                    continue
                 out.append(f)
         return sorted(out, key=lambda f: f.path)
 
